@@ -129,8 +129,11 @@ class Scratch(object):
         self.clean()
 
 
-def hyp_drive(strategy, check, seed, max_examples, ev=None, shrink=True, stateful_steps=None):
-    """Run `check(case)` over `strategy` with Hypothesis; return the shrunk Violation or None."""
+def hyp_drive(strategy, check, seed, max_examples, ev=None, shrink=True, shrink_budget=None):
+    """Run `check(case)` over `strategy` with Hypothesis; return the shrunk Violation or None.
+
+    Shrinking is bounded by a number of re-executions (not by time): once the budget is used up every
+    further shrink attempt is answered 'passes', so Hypothesis stops with the smallest failure seen so far."""
     import hypothesis
     from hypothesis import HealthCheck, Phase, given, settings
 
@@ -145,22 +148,33 @@ def hyp_drive(strategy, check, seed, max_examples, ev=None, shrink=True, statefu
         suppress_health_check=list(HealthCheck),
         print_blob=False,
     )
-    state = {"failed": False}
+    if shrink_budget is None:
+        shrink_budget = int(os.environ.get("VERIF_SHRINK_BUDGET", "150"))
+    state = {"failed": False, "best": None, "shrinks": 0}
 
     def wrapped(case):
-        if state["failed"] and ev is not None:
-            ev.shrinking = True
+        if state["failed"]:
+            if ev is not None:
+                ev.shrinking = True
+            state["shrinks"] += 1
+            if state["shrinks"] > shrink_budget:
+                return
         try:
             check(case)
-        except Violation:
+        except Violation as v:
             state["failed"] = True
+            state["best"] = v
             raise
 
     test = hypothesis.seed(seed)(st(given(strategy)(wrapped)))
     try:
         test()
     except Violation as v:
-        return v
+        return state["best"] or v
+    except BaseException:
+        if state["best"] is not None:  # e.g. Flaky raised because the budget cut the final replay
+            return state["best"]
+        raise
     finally:
         if ev is not None:
             ev.shrinking = False
